@@ -3,6 +3,7 @@ package main
 
 import (
 	"bytes"
+	"context"
 	"compress/gzip"
 	"fmt"
 	"html"
@@ -184,6 +185,8 @@ type world struct {
 	lens    []int
 	engines []*engine
 	slash   *route.Engine
+	// shortCache: an engine whose file cache entries expire after 2 ms
+	shortCache *engine
 }
 
 var oddNames = []string{"a%41.txt", "aA.txt", "what?.txt", "what", "c#.txt", "c", "50%25off.txt", "50%off.txt", "sp ace.txt", "plus+.txt", "am&p.txt", "q\"uote.txt"}
@@ -255,6 +258,15 @@ func setup() (*world, error) {
 	// several index names of which the first does not exist, compression on: the lookup
 	// of the later names / the generated listing runs on the compressed-file path too
 	mk("index-compress", &app.FS{AcceptByteRange: true, Compress: true, IndexNames: []string{"missing.html", "index.html", longIndex}, GenerateIndexPages: true, PathRewrite: strip}, true)
+	// cached file handles that expire after 2 ms: the cache sweeper works while responses
+	// are being written (concurrent family)
+	e5 := rig.NewEngine(opt(), func(e *route.Engine) {
+		// (a middleware that does some work after the file handler has answered, before the
+		// response is written: a logger, a metrics hook)
+		e.Use(func(c context.Context, ctx *app.RequestContext) { ctx.Next(c); time.Sleep(300 * time.Microsecond) })
+		e.StaticFS("/s", &app.FS{Root: wd.root, AcceptByteRange: true, PathRewrite: strip, CacheDuration: 2 * time.Millisecond})
+	})
+	wd.shortCache = &engine{"short-cache", e5, true}
 	// the file system root itself as the root (what ctx.File and ServeFile use)
 	wd.slash = rig.NewEngine(opt(), func(e *route.Engine) {
 		e.StaticFS("/s", &app.FS{Root: "/", GenerateIndexPages: true, PathRewrite: strip})
@@ -790,6 +802,9 @@ func work(w *mon.W) {
 	// concurrent clients (race detector in the thorough build): reader refcounts, cache map
 	w.Cases("concurrent", uint64(w.Pick(40, 1500)), func(c *mon.Case) {
 		en := wd.engines[int(c.I)%4]
+		if c.I%3 == 2 {
+			en = wd.shortCache
+		}
 		var wg sync.WaitGroup
 		var mu sync.Mutex
 		failed := false
